@@ -45,8 +45,9 @@ type ProcCfg struct {
 	Multiplier float64 `json:"cooldown_multiplier"`
 }
 type ProcEv struct {
-	Proc int `json:"proc"`
-	Seq  int `json:"seq"`
+	Proc int    `json:"proc"`
+	Seq  int    `json:"seq"`
+	Body string `json:"body,omitempty"` // flowbody: kind of body; the stream is built by NewResponseAPIStream
 }
 type FlowProcCase struct {
 	Procs  []ProcCfg `json:"procs"`
@@ -54,6 +55,7 @@ type FlowProcCase struct {
 	Loaded []bool    `json:"loaded"`
 	Outs   []string  `json:"outs"`
 	Waited []int64   `json:"cooldown_waited_ns"` // informative, not compared
+	SeqIDs []string  `json:"stream_sequence_ids,omitempty"` // flowbody: what the stream reports as its sequence id (informative)
 }
 
 type EngEv struct {
@@ -90,6 +92,8 @@ type Case struct {
 	FlowProc *FlowProcCase `json:"flowproc,omitempty"`
 	Engine   *EngineCase   `json:"flowengine,omitempty"`
 	Policy   *PolicyCase   `json:"policy,omitempty"`
+	FlowBody *FlowProcCase `json:"flowbody,omitempty"`
+	Dispatch *DispatchCase `json:"dispatch,omitempty"`
 }
 
 func outCode(s string) int64 {
@@ -139,7 +143,7 @@ func execFlowProc(k *FlowProcCase) {
 	ctx := lunar_context.NewContextManager().WithFlowContext().WithTransactionalContext().GetLunarContext()
 	shared := lunar_context.NewMemoryState[[]byte]()
 	procs := make([]stream_types.ProcessorI, len(k.Procs))
-	k.Loaded, k.Outs = nil, nil
+	k.Loaded, k.Outs, k.SeqIDs = nil, nil, nil
 	for i, pc := range k.Procs {
 		params := map[string]stream_types.ProcessorParam{
 			"attempts":                          {Name: "attempts", Value: public_types.NewParamValue(pc.Attempts)},
@@ -160,17 +164,26 @@ func execFlowProc(k *FlowProcCase) {
 		}
 		seq := fmt.Sprintf("seq-%d", ev.Seq)
 		id := fmt.Sprintf("tx-%d", n)
-		api := stream_types.NewAPIStream("C17", public_types.StreamTypeResponse, shared)
-		api.SetRequest(stream_types.NewRequest(lunar_messages.OnRequest{
-			ID: id, SequenceID: seq, Method: "GET", Scheme: "https", URL: engineHost + "/x", Headers: map[string]string{},
-		}))
-		api.SetResponse(stream_types.NewResponse(lunar_messages.OnResponse{
-			ID: id, SequenceID: seq, Method: "GET", URL: engineHost + "/x", Status: 500, Headers: map[string]string{},
-		}))
+		var api public_types.APIStreamI
+		if ev.Body != "" {
+			api = responseStream(id, seq, ev.Body, shared)
+			k.SeqIDs = append(k.SeqIDs, api.GetSequenceID())
+		} else {
+			a := stream_types.NewAPIStream("C17", public_types.StreamTypeResponse, shared)
+			a.SetRequest(stream_types.NewRequest(lunar_messages.OnRequest{
+				ID: id, SequenceID: seq, Method: "GET", Scheme: "https", URL: engineHost + "/x", Headers: map[string]string{},
+			}))
+			a.SetResponse(stream_types.NewResponse(lunar_messages.OnResponse{
+				ID: id, SequenceID: seq, Method: "GET", URL: engineHost + "/x", Status: 500, Headers: map[string]string{},
+			}))
+			api = a
+		}
 		api.SetContext(ctx)
-		io, err := procs[ev.Proc].Execute("C17Flow", api)
+		io, err, pan := executeGuarded(procs[ev.Proc], api)
 		_, isRetry := io.RespAction.(*actions.RetryRequestAction)
 		switch {
+		case pan != "":
+			k.Outs = append(k.Outs, "panic:"+pan)
 		case err != nil:
 			k.Outs = append(k.Outs, "error:"+err.Error())
 		case io.Name == "retry" && isRetry:
@@ -182,6 +195,17 @@ func execFlowProc(k *FlowProcCase) {
 		}
 	}
 	k.Waited = clk.waited
+}
+
+// executeGuarded: a panic inside the processor is an observation, not a harness failure
+func executeGuarded(p stream_types.ProcessorI, api public_types.APIStreamI) (io stream_types.ProcessorIO, err error, pan string) {
+	defer func() {
+		if r := recover(); r != nil {
+			pan = fmt.Sprint(r)
+		}
+	}()
+	io, err = p.Execute("C17Flow", api)
+	return
 }
 
 func coqFlowProc(k *FlowProcCase) string {
@@ -415,10 +439,15 @@ func coqPolicy(k *PolicyCase) string {
 // monitorPolicy restates the policy-mode part of the property over what the
 // plugin answered. A logical call = the responses of one sequence id from a
 // response that opens it (ID = SequenceID) up to the next such response.
-func monitorPolicy(k *PolicyCase) []c.Hit {
+func monitorPolicy(k *PolicyCase) []c.Hit { return monitorPolicyTrace(k, Case{Policy: k}) }
+
+// monitorPolicyTrace: k carries the responses as the CLIENT identified them
+// (sequence id, opening or not, status) and the answers; cs is the case a hit
+// is reported with.
+func monitorPolicyTrace(k *PolicyCase, cs any) []c.Hit {
 	var hits []c.Hit
 	add := func(sig, dem, ob string) {
-		hits = append(hits, c.Hit{Signature: sig, Demanded: dem, Observed: ob, Case: Case{Policy: k}})
+		hits = append(hits, c.Hit{Signature: sig, Demanded: dem, Observed: ob, Case: cs})
 	}
 	bound := k.Attempts
 	if bound < 0 {
@@ -477,9 +506,9 @@ func monitorPolicy(k *PolicyCase) []c.Hit {
 
 // ------------------------------------------------------------------ runners
 
-func runFlowProc(o *c.Out, k FlowProcCase) {
+func runFlowProc(o *c.Out, suite string, k FlowProcCase) {
 	execFlowProc(&k)
-	o.Count("flowproc:events=" + bucket(len(k.Events)))
+	o.Count(suite + ":events=" + bucket(len(k.Events)))
 	nontrivial := false
 	obs := make([]flowObs, len(k.Events))
 	for i, ev := range k.Events {
@@ -487,17 +516,65 @@ func runFlowProc(o *c.Out, k FlowProcCase) {
 		if k.Outs[i] == "failed" {
 			nontrivial = true
 		}
-		o.Count("flowproc:out=" + k.Outs[i])
+		switch k.Outs[i] {
+		case "retry", "failed", "other":
+			o.Count(suite + ":out=" + k.Outs[i])
+		default:
+			o.Count(suite + ":out=unexpected")
+		}
+		if ev.Body != "" {
+			o.Count(suite + ":body=" + ev.Body)
+		}
 	}
 	for _, p := range k.Procs {
-		o.Count(fmt.Sprintf("flowproc:attempts=%d", p.Attempts))
+		o.Count(fmt.Sprintf("%s:attempts=%d", suite, p.Attempts))
 	}
-	idx := o.Case("flowproc", coqFlowProc(&k), Case{FlowProc: &k}, nontrivial)
+	cs := Case{FlowProc: &k}
+	if suite == "flowbody" {
+		cs = Case{FlowBody: &k}
+		// non-trivial: a call ended with failed while responses of another
+		// sequence lay between its responses
+		nontrivial = nontrivial && interleaved(k.Events)
+	}
+	idx := o.Case(suite, coqFlowProc(&k), cs, nontrivial)
 	o.MonitorChecked(1)
-	for _, h := range monitorFlow(obs, func(p int) int { return k.Procs[p].Attempts }, Case{FlowProc: &k}) {
-		h.Suite, h.Index = "flowproc", idx
+	hits := monitorFlow(obs, func(p int) int { return k.Procs[p].Attempts }, cs)
+	for i, out := range k.Outs {
+		if out != "retry" && out != "failed" && out != "other" {
+			hits = append(hits, c.Hit{Signature: "flow-no-answer:" + suite,
+				Demanded: "the retry processor answers every response it is given with retry or failed",
+				Observed: fmt.Sprintf("response #%d: %s", i, out), Case: cs})
+			break
+		}
+	}
+	for _, h := range hits {
+		h.Suite, h.Index = suite, idx
+		if suite == "flowbody" && len(k.SeqIDs) == len(k.Events) {
+			for i, ev := range k.Events {
+				if ev.Body != "" && k.SeqIDs[i] != fmt.Sprintf("seq-%d", ev.Seq) {
+					h.Observed += fmt.Sprintf(" [the stream built for response #%d (sequence seq-%d, body %s) reports sequence id %q]", i, ev.Seq, ev.Body, k.SeqIDs[i])
+					break
+				}
+			}
+		}
 		o.Hit(h)
 	}
+}
+
+func interleaved(evs []ProcEv) bool {
+	last := map[[2]int]int{}
+	for i, e := range evs {
+		key := [2]int{e.Proc, e.Seq}
+		if j, ok := last[key]; ok {
+			for _, m := range evs[j+1 : i] {
+				if m.Proc == e.Proc && m.Seq != e.Seq {
+					return true
+				}
+			}
+		}
+		last[key] = i
+	}
+	return false
 }
 
 func runEngine(o *c.Out, k EngineCase) {
@@ -621,9 +698,9 @@ func genFlowProc(o *c.Out) {
 			for bits := 0; bits < 1<<l; bits++ {
 				k := FlowProcCase{Procs: []ProcCfg{{Attempts: a}}}
 				for j := 0; j < l; j++ {
-					k.Events = append(k.Events, ProcEv{0, 1 + bits>>j&1})
+					k.Events = append(k.Events, ProcEv{Proc: 0, Seq: 1 + bits>>j&1})
 				}
-				runFlowProc(o, k)
+				runFlowProc(o, "flowproc", k)
 			}
 		}
 	}
@@ -650,9 +727,9 @@ func genFlowProc(o *c.Out) {
 			if r.Chance(1, 4) {
 				p = 1
 			}
-			k.Events = append(k.Events, ProcEv{p, s})
+			k.Events = append(k.Events, ProcEv{Proc: p, Seq: s})
 		}
-		runFlowProc(o, k)
+		runFlowProc(o, "flowproc", k)
 	}
 }
 
@@ -800,19 +877,30 @@ func main() {
 	o.DeclareSuite("policy", "From Verif Require Import C17.Model.", "case_policy", "run_policy")
 	o.DeclareSuite("flowproc", "From Verif Require Import C17.Model.", "case_flowproc", "run_flowproc")
 	o.DeclareSuite("flowengine", "From Verif Require Import C17.Model.", "case_flowengine", "run_flowengine")
+	o.DeclareSuite("flowbody", "From Verif Require Import C17.Model.", "case_flowproc", "run_flowproc")
+	o.DeclareSuite("dispatch", "From Verif Require Import C17.Model.", "case_policy", "run_policy")
 	o.Rule("policy: every response string (first/later x retryable/not) of one sequence up to a length bound x attempts -1..4, " +
 		"then random histories of 3 interleaved sequences with clock steps around the ttl and sleeper firings; " +
 		"flowproc: every event string of 2 sequences on one processor up to a bound x attempts -1..4, then random histories on " +
 		"2 processors sharing the flow context x 3 sequences; flowengine: random (sequence, status) histories through a loaded " +
-		"Filter->Retry flow; distinct = distinct (settings, history, observed answers); non-trivial = flows: some round ended " +
-		"with failed; policy: at least one retry and at least one retryable response answered noop")
+		"Filter->Retry flow; flowbody: the flowproc histories with streams built by NewResponseAPIStream from responses with " +
+		"decodable and undecodable bodies (9 kinds), every string of 2 sequences up to a bound per kind, then random mixes; " +
+		"dispatch: requests through runner.DispatchOnRequest/DispatchOnResponse with a retry remedy and a fixed-response / " +
+		"throttling remedy answering inside the retry conditions: attempts+2.. consecutive gateway-made responses of 1-3 " +
+		"round-robin sequences, then random mixes of early and provider responses; distinct = distinct (settings, history, observed answers); non-trivial = flows: some round ended " +
+		"with failed (flowbody: and responses of another sequence lay between those of the call); dispatch: a sequence got more " +
+		"gateway-made retryable responses than attempts and both answers occurred; policy: at least one retry and at least one retryable response answered noop")
 	var k Case
 	if _, ok := o.ReplayCase(&k); ok {
 		switch {
 		case k.Policy != nil:
 			runPolicy(o, *k.Policy)
 		case k.FlowProc != nil:
-			runFlowProc(o, *k.FlowProc)
+			runFlowProc(o, "flowproc", *k.FlowProc)
+		case k.FlowBody != nil:
+			runFlowProc(o, "flowbody", *k.FlowBody)
+		case k.Dispatch != nil:
+			runDispatch(o, *k.Dispatch)
 		case k.Engine != nil:
 			runEngine(o, *k.Engine)
 		}
@@ -822,5 +910,7 @@ func main() {
 	genPolicy(o) // first: its goroutine accounting wants a quiet process
 	genFlowProc(o)
 	genEngine(o)
+	genFlowBody(o)
+	genDispatch(o)
 	o.Finish()
 }
